@@ -47,9 +47,9 @@ Definition lin_tag (code : N) : N :=
 Definition chk_lin (code tag : N) : bool := (lin_tag code =? tag)%N.
 
 (* convert_sensor_raw_to_value(None) is None, also for an unknown linearization *)
-Definition chk_none (s : sensor) : bool :=
+Definition chk_none (s : sensor) (impl_none : bool) : bool :=
   match convert_sensor_raw_to_value N (fun _ => 0%N) (fun x => x) (fun x => x) (fun x => x) (fun x => x)
           (fun x => x) (fun x => x) (fun x => x) (fun x => x) (fun x => x) (fun x => x) (fun x => x) s None with
-  | Ok None => true
+  | Ok None => impl_none
   | _ => false
   end.
